@@ -363,19 +363,19 @@ def _alarm(sig, frm):
 
 
 FLAG_KEYS = [("ff", False, False), ("ft", False, True), ("tf", True, False), ("tt", True, True)]   # nec, ndl
-HANG_S = 1.0
+HANG_S = 2.0          # CPU seconds (ITIMER_VIRTUAL): a loaded machine must not look like a hang
 
 
 def impl_call(tcls, value, nec, ndl, envc, unresolved="throw"):
     """one real conversion -> (outcome json, result object or None)"""
     from utype import Options, type_transform
-    signal.signal(signal.SIGALRM, _alarm)
-    signal.setitimer(signal.ITIMER_REAL, HANG_S)
+    signal.signal(signal.SIGVTALRM, _alarm)
+    signal.setitimer(signal.ITIMER_VIRTUAL, HANG_S)
     try:
         try:
             r = type_transform(value, tcls, options=Options(no_explicit_cast=nec, no_data_loss=ndl, unresolved_types=unresolved))
         finally:
-            signal.setitimer(signal.ITIMER_REAL, 0)
+            signal.setitimer(signal.ITIMER_VIRTUAL, 0)
     except _Hang:
         return {"diverge": True}, None
     except RecursionError:
@@ -1040,60 +1040,69 @@ def text_of(j, errors="strict"):
 
 
 def groups_of_value(j, env) -> set:
+    """the primitive groups of docs/en/references/options.md a VALUE belongs to: null / boolean (True, False, 0, 1) /
+    number (int, float, Decimal, complex) / string (str, bytes, bytearray, memoryview) / array / object"""
     k = jkind(j)
     if k == "NoneType":
         return {"null"}
     if k == "bool":
-        return {"boolean", "number"}
+        return {"boolean"}
+    if k == "int":
+        return {"number", "boolean"} if int(j["i"]) in (0, 1) else {"number"}
     if k in NUMBER:
-        g = {"number"}
-        v = num_value(j)
-        if v is not None and v in (0, 1):
-            g.add("boolean")
-        return g
+        return {"number"}
     if k in STRING:
         return {"string"}
     if k in ARRAY:
         return {"array"}
     if k == "dict":
         return {"object"}
-    if k in TEMPORAL:
-        return {"temporal"}
-    if k == "UUID":
-        return {"uuid"}
     if k == "enum":
         d = env[j["e"][0]]
-        g = {("enum", j["e"][0])}
-        if d.get("mt"):
-            g |= groups_of_value(d["members"][j["e"][1]][1], env)
-        return g
-    return {"object-instance"}
+        return groups_of_value(d["members"][j["e"][1]][1], env) if d.get("mt") else set()
+    return set()          # date/time values, UUID, objects: in no primitive group
 
 
-def groups_of_target(t) -> set:
+def group_of_target(t):
+    """the primitive group of a TARGET (date/time types, UUID, Enum, unregistered classes: none)"""
     if "cls" in t:
         b = t["cls"]
         if b == "NoneType":
-            return {"null"}
+            return "null"
         if b == "bool":
-            return {"boolean"}
+            return "boolean"
         if b in NUMBER:
-            return {"number"}
+            return "number"
         if b in STRING:
-            return {"string"}
+            return "string"
         if b in ARRAY:
-            return {"array"}
+            return "array"
         if b == "dict":
-            return {"object"}
-        if b in TEMPORAL:
-            return {"temporal", "string"}      # no native form: their string form is the documented exception
-        if b == "UUID":
-            return {"uuid", "string"}
-    if "enum" in t:
-        return {("enum", t["enum"])}
+            return "object"
+        return None
     if "abc" in t:
-        return {"array", "string", "object"} if t["abc"] != "mapping" else {"object"}
-    return {"object-instance"}
+        return "object" if t["abc"] == "mapping" else "array"
+    return None
+
+
+def nec_deviation(t, v, env):
+    """what the unchanged code admits under no_explicit_cast beyond the property's table -> known-finding id"""
+    tb = t.get("cls")
+    k = jkind(v)
+    if k == "enum" and env[v["e"][0]].get("mt"):
+        v = env[v["e"][0]]["members"][v["e"][1]][1]
+        k = jkind(v)
+    if k == "bool" and tb in ("int", "float", "Decimal", "complex", "date", "datetime", "timedelta"):
+        return "nec-bool-as-number"
+    if tb == "bool" and k in ("float", "Decimal", "complex") and num_value(v) in (0, 1):
+        return "nec-zero-one-like-to-bool"
+    if tb in ("date", "datetime", "time") and k in ("date", "datetime"):
+        return "nec-temporal-cross"
+    if tb == "UUID" and k in STRING:
+        return "nec-uuid-from-string"
+    if tb == "complex" and k in STRING:
+        return "complex-from-str-under-nec"
+    return None
 
 
 def is_timed_string(s: str) -> bool:
@@ -1150,7 +1159,7 @@ class C12(Check):
         lines, index = [], []
         for i, c in enumerate(cases):
             ls = parse_model_lines(c) if c.get("op") == "parse" else [self.model_line(c)]
-            index.append((len(lines), len(ls), c.get("op") == "parse" and c.get("kind") in ("dataclass", "inherit")))
+            index.append((len(lines), len(ls), c.get("op") == "parse" and c.get("kind") in ("dataclass", "inherit", "schema")))
             lines += ls
         flat = run_model(lines)
         model_outs = [flat[a:a + n] if multi_line else flat[a] for a, n, multi_line in index]
@@ -1271,19 +1280,26 @@ class C12(Check):
             except Exception:
                 pass
             return f"{json.dumps(v)[:60]} became enum member with value {json.dumps(mv)[:60]}"
-        gv, gt = groups_of_value(v, env), groups_of_target(t)
-        if gv & gt:
-            return None
+        # the property's table: passed through unchanged / in the target's primitive group / documented exception
         if canon(r) == canon(v):
-            return None                      # passed through unchanged (isinstance)
+            return None
+        gv, gt = groups_of_value(v, env), group_of_target(t)
+        if gt is not None and gt in gv:
+            return None
         tb = t.get("cls")
         if tb == "Decimal" and "string" in gv:
             return None                      # documented: Decimal from str
-        if tb in TEMPORAL and ("string" in gv or "number" in gv):
-            return None                      # documented: date/time types from their string and timestamp forms
-        return f"{jkind(v)} (group {sorted(map(str, gv))}) became {tname(t)} (group {sorted(map(str, gt))})"
+        if tb in TEMPORAL and "string" in gv:
+            return None                      # documented: date/time types from their string form
+        if tb in ("date", "datetime", "timedelta") and "number" in gv:
+            return None                      # documented: ... and from their timestamp form
+        dev = nec_deviation(t, v, env)
+        return (f"{jkind(v)} (groups {sorted(gv)}) became {tname(t)} (group {gt})" + (f" [deviation={dev}]" if dev else ""))
 
     def classify(self, case, io, why):
+        m = re.search(r"\[deviation=([\w-]+)\]", why)
+        if m and why.startswith("no_explicit_cast"):
+            return m.group(1)
         if case.get("op") == "union":
             # only: no_explicit_cast alone, and no member accepts the value under both preferences
             if why.startswith("mono") and "no_explicit_cast" in why and "no_data_loss" not in why and io.get("strict_member_ok") is False:
@@ -1295,8 +1311,6 @@ class C12(Check):
             return None
         t, v = case["target"], case["value"]
         tb = t.get("cls")
-        if why.startswith("no_explicit_cast") and tb == "complex" and jkind(v) in STRING:
-            return "complex-from-str-under-nec"
         if why.startswith("mono") and tb == "timedelta" and "no_explicit_cast" in why:
             txt = text_of(v, "ignore")
             if txt is not None:
@@ -1430,6 +1444,11 @@ def audit_prim_laws() -> list:
         a, b = load(True), load(False)
         if a != b and not (a == ("perr",) and b[0] == "ok"):
             bad.append(f"PrimLaws.json_strict fails for {t!r}")
+    words = set(TRUE_WORDS + FALSE_WORDS)
+    for kind in ("list", "tuple", "set", "frozenset", "deque"):
+        for v in pools[kind]:
+            if str(v).lower() in words:
+                bad.append(f"StrOfSeqLaw fails: str({v!r}) is a boolean word")
     if raws and b"".decode() != "":
         bad.append("decode of the empty byte string is not the empty text")
     return bad[:5]
@@ -1570,11 +1589,11 @@ def impl_union(case):
     members = [member_type(t, envc) for t in case["members"]]
     ann = typing.Union[tuple(members)]
     out, results = {}, {}
-    signal.signal(signal.SIGALRM, _alarm)
+    signal.signal(signal.SIGVTALRM, _alarm)
     for key, nec, ndl in FLAG_KEYS:
         value = dec(case["value"], envc)
         o = Options(no_explicit_cast=nec, no_data_loss=ndl)
-        signal.setitimer(signal.ITIMER_REAL, HANG_S)
+        signal.setitimer(signal.ITIMER_VIRTUAL, HANG_S)
         try:
             try:
                 if case.get("route") == "field":
@@ -1583,7 +1602,7 @@ def impl_union(case):
                 else:
                     r = type_transform(value, Rule.parse_annotation(ann), options=o)
             finally:
-                signal.setitimer(signal.ITIMER_REAL, 0)
+                signal.setitimer(signal.ITIMER_VIRTUAL, 0)
         except _Hang:
             out[key], results[key] = {"diverge": True}, None
         except RecursionError:
@@ -1834,6 +1853,9 @@ def parse_cases(tier, rng):
             out.append({"op": "parse", "kind": "options", "ndl": ndl, "addition": a})
             for style in ("schema", "function", "dataclass"):
                 out.append({"op": "parse", "kind": "schema", "style": style, "ndl": ndl, "addition": a})
+            # a key that names an excluded attribute (private name, ClassVar, excluded function parameter)
+            for style, ex in (("schema", "private"), ("schema", "classvar"), ("dataclass", "private"), ("function", "private")):
+                out.append({"op": "parse", "kind": "schema", "style": style, "excluded": ex, "ndl": ndl, "addition": a})
             for nargs in (0, 1, 2, 3):
                 for nvals in range(0, 6):
                     for src in ("tuple", "list"):
@@ -1868,30 +1890,46 @@ def impl_parse(case):
         v = _opts(case).addition
         return {"addition": "none" if v is None else ("no" if v is False else "yes")}
     if kind == "schema":
+        import typing
         o = _opts(case)
+        ex = case.get("excluded")
+        key = {"private": "_priv", "classvar": "cv"}.get(ex, "b")
         try:
             if case["style"] == "schema":
-                S = type("S", (Schema,), {"__options__": o, "__annotations__": {"a": int}, "a": 0})
-                r = dict(S(a=1, b=2))
+                body = {"__options__": o, "__annotations__": {"a": int}, "a": 0}
+                if ex == "private":
+                    body["_priv"] = 3
+                if ex == "classvar":
+                    body["__annotations__"]["cv"] = typing.ClassVar[int]
+                    body["cv"] = 3
+                S = type("S", (Schema,), body)
+                r = dict(S(**{"a": 1, key: 2}))
             elif case["style"] == "dataclass":
-                S = utype.dataclass(type("D", (), {"__annotations__": {"a": int}, "a": 0}), options=o)
-                inst = S(a=1, b=2)
-                r = {k: v for k, v in vars(inst).items() if not k.startswith("_")}
+                body = {"__annotations__": {"a": int}, "a": 0}
+                if ex == "private":
+                    body["_priv"] = 3
+                S = utype.dataclass(type("D", (), body), options=o)
+                inst = S(**{"a": 1, key: 2})
+                r = {k: v for k, v in vars(inst).items() if not (k.startswith("_") and k != "_priv")}
+                if ex == "private" and r.get("_priv") == 3:
+                    r.pop("_priv")          # the class attribute, not the key that was passed
             else:
                 if case["addition"] == "yes":
                     return {"skip": "a function without **kwargs cannot declare addition=True"}
-
-                @utype.parse(options=o)
-                def f(a: int = 0):
-                    return {"a": a}
-                r = f(a=1, b=2)
-                if "b" not in r:
-                    r = dict(r)
+                if ex == "private":
+                    def f(a=0, _priv=3):
+                        return {"a": a} if _priv == 3 else {"a": a, "_priv": _priv}
+                    f.__annotations__ = {"a": int}
+                else:
+                    def f(a=0):
+                        return {"a": a}
+                    f.__annotations__ = {"a": int}
+                r = dict(utype.parse(options=o)(f)(**{"a": 1, key: 2}))
         except Exception as e:
             out = _err(e)
             out["fate"] = "rejected" if out.get("perr") == "ExceedError" else "error"
             return out
-        return {"ok": {k: v for k, v in r.items()}, "fate": "kept" if "b" in r else "dropped"}
+        return {"ok": {k: v for k, v in r.items()}, "fate": "kept" if r.get(key) == 2 else "dropped"}
     if kind == "tuple":
         T = Rule.annotate(tuple, *([int] * case["nargs"])) if case["nargs"] else None
         if T is None:
@@ -1953,6 +1991,8 @@ def parse_model_lines(case):
     """driver lines for one parse case (the dataclass kind needs one per flag combination)"""
     if case["kind"] == "dataclass":
         return [dict(case, value=dc_to_model(case["value"]), nec=nec, ndl=ndl) for _, nec, ndl in FLAG_KEYS]
+    if case["kind"] == "schema":
+        return [dict(case, excluded=bool(case.get("excluded")))]
     if case["kind"] == "inherit":
         f = case["field"]
         if f in INHERIT_FIELDS:       # the field's converter under the class's (inherited) flags
@@ -2035,6 +2075,7 @@ def compare_parse(case, io, mo):
     if kind == "options":
         return None if io.get("addition") == mo.get("addition") else f"Options.addition: impl {io} model {mo}"
     if kind == "schema":
+        mo = mo[0] if isinstance(mo, list) else mo
         return None if io.get("fate") == mo.get("fate") else f"unknown key: impl {io} model {mo}"
     if kind == "tuple":
         ex = mo.get("excess")
@@ -2083,7 +2124,8 @@ def spec_parse(case, io):
             return f"no_data_loss: Options(no_data_loss=True{'' if a == 'unset' else ', addition=None'}).addition is {io.get('addition')}: unknown keys are not rejected"
     if kind == "schema":
         if ndl and a in ("unset", "none") and io.get("fate") != "rejected":
-            return f"no_data_loss: unknown key 'b' was {io.get('fate')} by a {case['style']} with Options(no_data_loss=True)"
+            what = "unknown key 'b'" if not case.get("excluded") else f"key naming an excluded ({case['excluded']}) attribute"
+            return f"no_data_loss: {what} was {io.get('fate')} by a {case['style']} with Options(no_data_loss=True)"
         if not ndl and a != "no" and io.get("fate") == "rejected":
             return None
     if kind == "tuple":
